@@ -1364,10 +1364,48 @@ func runMuxCases(o *corr.Out) {
 		}
 		emit("random", muxScenario{n: n, ops: ops, sizes: sizes})
 	}
+	if !giveUp(o) {
+		replayStalledClient(o)
+	}
 	if n, err := settle(self, waitLimit); err != nil || n != 0 {
 		o.Oracle("no-goroutine-left", "end of suite", fmt.Sprintf("%d goroutines alive (%v)", n, err))
 	}
 	_ = runtime.NumGoroutine
+}
+
+// replayStalledClient replays Props.C16.stalled_connection_counterexample on the implementation: a client
+// that sent half of its prefix and then stalls is still open inside routeConn after the mux stopped and
+// Run returned (known finding C16-stalled-prefix).
+func replayStalledClient(o *corr.Out) {
+	const input = "mux n=4 ops=N,W0:4452,X stalled-client"
+	w, err := newWorld(4)
+	if err != nil {
+		o.Oracle("no-hang", input, err.Error())
+		return
+	}
+	for _, op := range []string{"N", "W0:4452", "X"} {
+		if _, err := w.apply(op); err == nil {
+			_, err = settle(self, waitLimit)
+		}
+		if err != nil {
+			o.Oracle("no-hang", input, err.Error())
+			return
+		}
+	}
+	done, _ := w.runState()
+	c := w.conns[0]
+	c.mu.Lock()
+	closes := c.closes
+	c.mu.Unlock()
+	if done && closes == 0 && c.readersWaiting() > 0 {
+		o.Oracle("closed-after-stop", input, "Run has returned, connection 0 is neither delivered nor closed: routeConn is still blocked in io.ReadFull")
+	} else {
+		o.OracleOK("closed-after-stop")
+	}
+	c.clientClose()
+	if _, err := settle(self, waitLimit); err != nil {
+		o.Oracle("no-hang", input, err.Error())
+	}
 }
 
 // staticallyValid replays the bookkeeping of a schedule (listeners created, connections, base alive)
